@@ -84,7 +84,7 @@ def gen(tier, rng):
                 elif k in cur_keys:
                     ops.pop()
             elif r < 0.92:
-                kind = rng.choice(["ok", "ok", "ok", "wrong_n", "wrong_len", "unaligned"])
+                kind = rng.choice(["ok", "ok", "ok", "wrong_n", "wrong_len", "perm_len", "unaligned"])
                 nk = rng.choice([3, rng.choice(cur_keys) if cur_keys else 3])
                 if kind == "ok":
                     new = [_rand_member(rng, nk, n_al)]
@@ -92,6 +92,13 @@ def gen(tier, rng):
                     new_al = n_al > 0
                 elif kind == "wrong_n":
                     new = [_rand_member(rng, nk, max(1, (n_al + 1) % 4))]
+                    new_al = True
+                elif kind == "perm_len":
+                    # the right lengths, but along the wrong aligned axes (the same multiset in another order)
+                    new = [_rand_member(rng, nk, max(2, n_al))]
+                    k_al = len(new[0]["al"])
+                    for i, a in enumerate(new[0]["al"]):
+                        new[0]["shape"][a] = ALIGNED_LENS[(i + 1) % k_al]
                     new_al = True
                 elif kind == "wrong_len":
                     new = [_rand_member(rng, nk, max(1, n_al))]
